@@ -75,12 +75,20 @@ fn words_of(rt: &TimerRuntime) -> Vec<u64> {
 
 /// index of the 8-byte word of `TimerRuntime` holding `generation`, found by behaviour:
 /// after 5 inserts and 2 cancels it is the only word equal to 5, and one more insert makes it 6.
-fn gen_word_index() -> usize {
-    thread_local!(static IDX: Cell<Option<usize>> = const { Cell::new(None) });
+fn gen_word_index() -> Option<usize> {
+    thread_local!(static IDX: Cell<Option<Option<usize>>> = const { Cell::new(None) });
     if let Some(i) = IDX.with(|c| c.get()) {
         return i;
     }
-    assert_eq!(std::mem::size_of::<TimerRuntime>() % 8, 0);
+    let r = catch(locate_gen_word).ok().flatten();
+    IDX.with(|c| c.set(Some(r)));
+    r
+}
+
+fn locate_gen_word() -> Option<usize> {
+    if std::mem::size_of::<TimerRuntime>() % 8 != 0 {
+        return None;
+    }
     let mut rt = TimerRuntime::new();
     let far = Instant::now() + Duration::from_secs(3600);
     let ks: Vec<TimerKey> = (0..5).map(|i| rt.insert(far + Duration::from_secs(i)).unwrap()).collect();
@@ -90,17 +98,18 @@ fn gen_word_index() -> usize {
     rt.insert(far).unwrap();
     let w6 = words_of(&rt);
     let cand: Vec<usize> = (0..w5.len()).filter(|&i| w5[i] == 5 && w6[i] == 6).collect();
-    assert_eq!(cand.len(), 1, "cannot locate TimerRuntime::generation: {w5:?} {w6:?}");
-    assert!(format!("{rt:?}").contains("generation: 6,"));
-    IDX.with(|c| c.set(Some(cand[0])));
-    cand[0]
+    if cand.len() != 1 || !format!("{rt:?}").contains("generation: 6,") {
+        return None;
+    }
+    Some(cand[0])
 }
 
-fn poke_generation(rt: &mut TimerRuntime, v: u64) {
-    let i = gen_word_index();
+/// `false`: the field could not be located (the counter does not behave as in the pinned source)
+fn poke_generation(rt: &mut TimerRuntime, v: u64) -> bool {
+    let Some(i) = gen_word_index() else { return false };
     let p = rt as *mut TimerRuntime as *mut u64;
     unsafe { std::ptr::write_volatile(p.add(i), v) };
-    assert!(format!("{rt:?}").contains(&format!("TimerRuntime {{ generation: {v},")));
+    format!("{rt:?}").contains(&format!("TimerRuntime {{ generation: {v},"))
 }
 
 // ---------------------------------------------------------------------------------------------
@@ -277,9 +286,8 @@ fn run_wheel(lines: &[String], grid_ns: u64, ex: &mut Exec) -> Result<Vec<String
                 format!("t={}", r.t)
             }
             ["setgen", v] => {
-                poke_generation(&mut r.rt, v.parse().unwrap());
                 ex.tag("w:setgen");
-                "ok".to_string()
+                if poke_generation(&mut r.rt, v.parse().unwrap()) { "ok".to_string() } else { "generation-counter-not-found".to_string() }
             }
             ["ins", d] => {
                 let d: u64 = d.parse().unwrap();
@@ -796,8 +804,10 @@ fn run_rt_once(drv: &str, lp: &str, tasks_s: &str) -> RtOut {
         let th = {
             let (stop, slot) = (stop.clone(), waker_slot.clone());
             std::thread::spawn(move || {
+                // (the period is well above the 200 ms tolerance: a runtime that only moves because
+                // of these wake-ups is reported as firing late)
                 while !stop.load(Ordering::Relaxed) {
-                    std::thread::sleep(Duration::from_millis(100));
+                    std::thread::park_timeout(Duration::from_millis(500));
                     if let Some(w) = slot.lock().unwrap().as_ref() {
                         w.wake_by_ref();
                     }
@@ -826,6 +836,7 @@ fn run_rt_once(drv: &str, lp: &str, tasks_s: &str) -> RtOut {
             drop(hs);
         });
         stop.store(true, Ordering::Relaxed);
+        th.thread().unpark();
         th.join().unwrap();
     }
     // a dropped / finished timer leaves nothing behind
@@ -976,11 +987,17 @@ fn rt_line(line: &str) -> RtOut {
         return o;
     }
     let w: Vec<&str> = line.split_whitespace().collect();
-    match w.as_slice() {
+    let r = catch(|| match w.as_slice() {
         ["rt", drv, lp, tasks] => run_rt(drv, lp, tasks),
         ["ivx", drv, s, p] => run_ivx(drv, s.parse().unwrap(), p.parse().unwrap()),
         _ => RtOut { line: "bad-op".into(), ..Default::default() },
-    }
+    });
+    // no panic is expected outside the two documented ones, which are caught where they occur
+    r.unwrap_or_else(|msg| RtOut {
+        line: "unexpected-panic".into(),
+        failures: vec![("C09:unexpected-panic".into(), msg)],
+        ..Default::default()
+    })
 }
 
 fn exec_case(case: &Case) -> Exec {
@@ -1210,7 +1227,6 @@ fn main() {
     // expected panics (generation overflow, Instant overflow) are caught and reported per line
     std::panic::set_hook(Box::new(|_| {}));
     try_realtime();
-    gen_word_index();
     run_harness(
         generate,
         exec_case,
